@@ -11,9 +11,10 @@ import (
 )
 
 // Script tokens (fields separated by ':' and hex encoded):
-//   request : M:m U:u UA:v HO:v CT:v CL:n S:k:v A:k:v C:k:v T:k:v CC ND
-//   response: ST:n SV:v CT:v CE:v CL:n S:k:v A:k:v C:k:v:path:domain T:k:v CC NDD NDC
-//             X:k:v (RequestContext.Header) XR:code:loc (Redirect) XC:name:value:path:domain (RequestContext.SetCookie) XT:v (SetContentType)
+//
+//	request : M:m U:u UA:v HO:v CT:v CL:n S:k:v A:k:v C:k:v T:k:v CC ND
+//	response: ST:n SV:v CT:v CE:v CL:n S:k:v A:k:v C:k:v:path:domain T:k:v CC NDD NDC
+//	          X:k:v (RequestContext.Header) XR:code:loc (Redirect) XC:name:value:path:domain (RequestContext.SetCookie) XT:v (SetContentType)
 func f(tok string, i int) string {
 	p := strings.Split(tok, ":")
 	if i < len(p) {
